@@ -17,6 +17,10 @@ pub(crate) use core::sync::atomic::*;
 #[cfg(feature = "loom")]
 pub(crate) use loom::sync::atomic::*;
 
+// named imports shadow the glob imports above
+#[cfg(all(feature = "verif-hooks", not(feature = "loom")))]
+pub(crate) use crate::verif::{AtomicBool, AtomicU32, AtomicU64, AtomicUsize};
+
 pub(crate) trait UnsafeCellExt<T> {
   fn as_inner_ptr(&self) -> *const T;
   fn as_inner_mut(&self) -> *mut T;
